@@ -337,7 +337,8 @@ func (o *OpenAPI3Importer) typeAliasForSchema(ref *openapi3.SchemaRef) Type {
 		t = nameOnlyType(strings.Join(o.nameStack, "_"))
 	}
 
-	if _, ok := t.(*Array); !ok && ref.Value.Type.Is(openapi3.TypeArray) {
+	// a reference to a definition is that definition, whatever its type: only an inline array is wrapped
+	if _, ok := t.(*Array); !ok && ref.Ref == "" && ref.Value.Type.Is(openapi3.TypeArray) {
 		return &Array{Items: t}
 	}
 	return t
@@ -381,6 +382,21 @@ func (o *OpenAPI3Importer) buildField(name string, prop *openapi3.SchemaRef) (Fi
 	if isArray && prop.Value.Items.Ref != "" {
 		f.Type = &Array{Items: nameOnlyType(o.typeNameFromSchemaRef(prop.Value.Items))}
 		// f.SizeSpec = makeSizeSpec(prop.Value.MinItems, prop.Value.MaxItems)
+		return f, nil
+	}
+
+	if isArray && typeName != OpenAPI_OBJECT && prop.Value.Items.Value.Type.Is(openapi3.TypeArray) {
+		// An array of arrays: Sysl cannot say `sequence of sequence of`, so the inner array becomes a type of
+		// its own, named like the type of an inline object would be.
+		ns := o.nameStack
+		o.nameStack = nil
+		defer func() { o.nameStack = ns }()
+		t, err := o.loadTypeSchema(strings.Join(ns, "_"), prop.Value.Items.Value)
+		if err != nil {
+			return Field{}, err
+		}
+		o.types.Add(t)
+		f.Type = &Array{Items: t}
 		return f, nil
 	}
 
@@ -445,7 +461,10 @@ func (o *OpenAPI3Importer) loadTypeSchema(name string, schema *openapi3.Schema) 
 			return nil, fmt.Errorf("array type %s has no items", name)
 		}
 		var items Type
-		if childName := o.typeNameFromSchemaRef(schema.Items); childName == OpenAPI_OBJECT {
+		// the items get a type of their own (<name>_obj) if they are an inline object - or an inline array, for
+		// which Sysl has no type expression (`sequence of sequence of` does not parse)
+		innerArray := schema.Items.Ref == "" && schema.Items.Value.Type.Is(openapi3.TypeArray)
+		if childName := o.typeNameFromSchemaRef(schema.Items); childName == OpenAPI_OBJECT || innerArray {
 			defer o.pushName("obj")()
 			if o.isCircular(schema.Items) {
 				return nil, errCircularType(o.nameStack)
